@@ -18,7 +18,7 @@ RULE = (
     "file order, value x factor (rel 1e-12), units attribute, constants once as group attrs with "
     "the enum label, header attrs present iff the field is non-blank; missing and unexpected "
     "leaves are discrepancies. Non-trivial: >= 2 lines."
-    " One case in four is judged on the tree returned by an open that also writes the index cache. Stage 'in-place-pairs': two products with the same file names at the same root, one after the other, both judged. A fifth of the cases inject a transient I/O error (the 1st..4th read of an image file fails once with OSError during the open): the open may raise it, a returned tree is complete."
+    " One case in four is judged on the tree returned by an open that also writes the index cache. Stage 'in-place-pairs': two products with the same file names at the same root, one after the other, both judged. A fifth of the cases inject a transient I/O error (the 1st..4th read of an image file fails once with OSError during the open): the open may fail, a returned tree is complete."
 )
 ASSUMPTIONS = [
     "layout tables for the image descriptor and both line records (frozen)",
@@ -90,7 +90,7 @@ def run_case(case):
     files, info = product.build_product(spec)
     out = []
     if case.get("io_error") and not case.get("create_cache") and harness.PAIR_INDEX is None:
-        # an open during which one read of an image file fails: it may raise that OSError, but a
+        # an open during which one read of an image file fails: it may fail, but a
         # tree that is returned has every line of every image
         with common.open_under_read_fault(files, info["names"]["sar_imagery"][0], case["io_error"], use_cache=False, records_per_chunk=case["rpc"]) as (tree, err, consumed):
             if err is not None:
